@@ -47,6 +47,9 @@ CLAIMS = {
  "C14": dict(cat="exploration", tech="rapid generation of (schema family x chart tree x values through files and --set x operation sequence); reference schema evaluator over reference-coalesced values; request log and storage snapshot for the no-effect clause",
    text="Generated schemas on any chart of a three-level tree, values arriving from defaults, parent sections, -f files and --set; template, server dry-run, install, upgrade and lint must reject exactly when the reference evaluator finds a violating enabled chart, naming it and leaving cluster and store untouched; skip-schema-validation is the only way through.",
    note="Reference evaluator covers exactly the generated schema family; lint judged for the root chart only."),
+ "C16": dict(cat="exploration", tech="rapid generation of tar+gzip streams from a raw header encoder (hostile names, type flags, link entries, size lies, mutations) x destination layouts with planted symlinks; before/after snapshot of a sandbox with canaries as oracle; lazily generated endless streams with a byte counter for the size limits; native coverage-guided fuzzing of the same oracle in the thorough tier",
+   text="Adversarial archives through LoadArchive(Files), Expand(File), the plugin extractor/installer and helm pull --untar against pre-planted destinations: nothing outside the destination may change (even when the call fails) and every exposed file name must be a clean relative path; over-limit archives are rejected without reading past the limit; dependency update must not write the lock file through a planted symlink.",
+   note="Reads through links are not observable by a snapshot; Windows path semantics, hard-link plants and TOCTOU races not covered; the committed fuzz seed corpus is replayed in the quick tier, native fuzzing runs only in the thorough tier."),
  "C17": dict(cat="exploration", tech="rapid generation of signed charts and 37 mutation classes over archive / provenance / armor / file name / keyring; round-trip, metamorphic must-reject rules and a differential against an independent reference verifier, through six entry points",
    text="Helm-signed generated charts receive one mutation (tampering, attacker-style composites, non-semantic edits, crafted validly-signed-but-wrong messages) and a keyring variant; accept/reject must match an independent reference verifier and the must-reject rules, and every wrapper (VerifyChart, action.Verify, LocateChart --verify, DownloadTo with VerifyAlways) must fail exactly when Signatory.Verify does.",
    note="Fixed committed RSA keys (generation cannot be seeded); x/crypto openpgp is the trusted primitive; only .tgz names; expired/revoked keys not covered."),
